@@ -33,7 +33,7 @@ type caseT struct {
 	CTS       int32 `json:"cts,omitempty"`
 	// both
 	Trait   uint8 `json:"trait,omitempty"`
-	RawLen  int   `json:"raw_len"`
+	RawLen  int   `json:"raw_len,omitempty"`
 	RawSalt uint8 `json:"raw_salt,omitempty"`
 	// *-bytes
 	Hex string `json:"body_hex,omitempty"`
